@@ -353,6 +353,8 @@ class GenInfo:
         self.needs_pred_hints = []
         self.opaque_consts = []
         self.field_renames = {}
+        self.dropped_clauses = []
+        self.dropped_ghosts = []
         self.manual_structural = []
         self.lost = []             # (contract key, props) whose function no longer exists
         self.lost_ghosts = []
@@ -462,6 +464,11 @@ def render_file(path, module, moddir, ctx):
         for gi, g in enumerate(ghosts):
             if g.kind in ('impl', 'trait') and ((g.kind == 'trait' and b.kind == 'trait' and b.header == 'trait ' + g.target)
                                                  or (g.kind == 'impl' and b.kind == 'impl' and b.header == g.target)):
+                if g.src in ctx.get('drop', ()):
+                    info.used_ghosts.add(gi)
+                    if g.src not in info.dropped_ghosts:
+                        info.dropped_ghosts.append(g.src)
+                    continue
                 edits.append(Edit(b.brace_open + 1, b.brace_open + 1, '\n/*@GHOST:%s@*/\n%s\n/*@ENDGHOST@*/' % (g.src, generic_subst(g.text, b, fo)), prio=-1))
                 info.used_ghosts.add(gi)
         if b.kind == 'impl' and b.header.startswith('KeyboardLayout for '):
@@ -506,6 +513,11 @@ def render_file(path, module, moddir, ctx):
             for cl in c.clauses:
                 oid = cl.oid(key)
                 text = generic_subst(subst_params(cl.text, names, cl.src), blk, fo)
+                if oid in ctx.get('drop', ()):
+                    # this clause no longer compiles against the changed code (a representation its ghost view does not fit):
+                    # pruned so that the rest can be decided; the properties tagged on it become undecided
+                    info.dropped_clauses.append((oid, [p.split('@')[0] for p in cl.props]))
+                    continue
                 clauses.append((cl.kind, oid, text))
                 info.obligations[oid] = {'kind': 'clause', 'clause': cl.kind, 'props': [p.split('@')[0] for p in cl.props], 'fn': key, 'text': text, 'src': cl.src,
                                          'restricted': {p.split('@')[0]: p.split('@')[1] for p in cl.props if '@' in p}}
@@ -725,14 +737,16 @@ MARK = re.compile(r'/\*@(OB|FN|ENDFN|GHOST|ENDGHOST|DERIVED|ENDDERIVED|LEMMA|END
 CELL = re.compile(r'//\s*CELL\s+(.+?)\s*$')
 
 
-def generate(repo, contracts_dir, lemma_texts=(), out_path=None, opaque=(), probe=False, external=(), table_hints=None, layout_hints=None, behavioural=(), pred_hints=None):
+def generate(repo, contracts_dir, lemma_texts=(), out_path=None, opaque=(), probe=False, external=(), table_hints=None, layout_hints=None, behavioural=(), pred_hints=None, drop=()):
     info = GenInfo()
     from . import follow
     fo = follow.compute(repo)
     info.follow = fo
+    info.ghost_kinds = {}
     info.field_renames = fo.fields
     fncontracts, ghosts = vspec.load_dir(contracts_dir, fo.rewrite_spec_text)
-    ctx = {'info': info, 'fncontracts': fncontracts, 'ghosts': ghosts, 'repo': repo, 'opaque': set(opaque), 'probe': probe, 'helpers': set(), 'external': set(external), 'table_hints': table_hints, 'layout_hints': layout_hints, 'pred_hints': pred_hints, 'behavioural': set(behavioural), 'keycodes_for_synth': [], 'private_types': set(), 'follow': fo}
+    info.ghost_kinds = {g.src: g.kind for g in ghosts}
+    ctx = {'info': info, 'fncontracts': fncontracts, 'ghosts': ghosts, 'repo': repo, 'opaque': set(opaque), 'probe': probe, 'helpers': set(), 'external': set(external), 'table_hints': table_hints, 'layout_hints': layout_hints, 'pred_hints': pred_hints, 'drop': set(drop), 'behavioural': set(behavioural), 'keycodes_for_synth': [], 'private_types': set(), 'follow': fo}
     srcdir = os.path.join(repo, 'src')
     try:
         libsrc = open(os.path.join(srcdir, 'lib.rs'), encoding='utf-8').read()
